@@ -64,20 +64,20 @@ CLAIMS.update({
 
 PART = " Theorem coverage is PARTIAL (see the *_partial theorems and the header of coq/Properties/%s.v): the remainder of the property is decided by the oracle on the implementation and the model/implementation correspondence, which are differential testing on generated inputs, not proof."
 CLAIMS.update({
-    "C01": ("proof", "Specification: Spec/Value.v + Spec/Message.v (reference reading of the pinned layout tables, extracted and used as the oracle). PROVED for every structure-type root (any type descriptor: primitives, structures, both TPM2B kinds, unions, counted lists, opaque first parameter; all tables, all inputs): if the specification reads the whole input as a value with valid leaves, strict decoding emits exactly the specified events (path, declared type, value, wire order, one byte of look-ahead) and accepts - by a simulation between the constraint-tracking coroutine decoder model and the specification (Proofs/Sim1-5.v), also stated with the specification at the pinned and the decoder at the regenerated tables (C20_pinned). NOT yet proved for Command / Response / stream roots: there the oracle compares the implementation with the extracted spec_events on table-directed well-formed encodings of every command code (0-3 sessions, present-but-empty session area, encrypted first parameter, failed responses) and the corpus." + PART % "C01",
-            "Coq specification + simulation proof (structure types) ; extracted specification as oracle ; model/implementation correspondence", "4 C01"),
+    "C01": ("proof", "Specification: Spec/Value.v + Spec/Message.v (reference reading of the pinned layout tables, extracted and used as the oracle). PROVED for every root but the stream - any structure-type descriptor (primitives, structures, both TPM2B kinds, unions, counted lists, opaque first parameter), COMMANDS (areas picked by the command code, size-governed session area iff the tag says so, opaque first parameter iff a session asks for decryption) and RESPONSES with command code and encryption flag (header-only failed responses, parameterSize region, sessions to the end, flag consistent with the sessions); all inputs; all tables passing msg_tables_ok (the regenerated tables pass by computation): if the specification reads the whole input as a value with valid leaves, strict decoding emits exactly the specified events (path, declared type, value, wire order, one byte of look-ahead) and accepts - by a simulation between the constraint-tracking coroutine decoder model and the specification (Proofs/Sim1-10.v), also stated with the specification at the pinned and the decoder at the regenerated tables (C20_pinned). NOT yet proved for the stream root: there the oracle compares the implementation with the extracted spec_events on generated command/response sequences and the corpus." + PART % "C01",
+            "Coq specification + simulation proof (types, commands, responses) ; extracted specification as oracle ; model/implementation correspondence", "4 C01"),
     "C03": ("proof", "Proved at operation level for all states: Exceeded is raised for the outermost listed live region the field would cross, names that region (path, limit, counted bytes), the offending field and the excess, after skipping exactly the rest of the region; Anticipated is raised for a live enclosing region when a size is read that cannot fit; a region closes normally only when exactly filled, else Subceeded names it. Not yet proved: composition over whole types (accepted => all sizes exact; nothing decidable earlier). Oracle: accepted => the extracted specification parses the input with exact sizes; the arithmetic of every size error recomputed from the emitted events; correspondence on every size field perturbed." + PART % "C03",
             "Coq proof (operation-level error anatomy) + region-arithmetic oracle + correspondence on fault-enumerated inputs", "4 C03"),
-    "C04": ("proof", "PROVED for every structure-type root, all tables, all inputs: a structurally consistent input is rejected by strict decoding if and only if some leaf of the field-by-field reading is out of range (valid <-> membership in the declared set, C16); the error names the FIRST such leaf in wire order (path, declared type, integer), exactly the events of all earlier fields and none for the offending one have been emitted, exactly the bytes after that field remain (Proofs/Sim6.v: warn-mode simulation + strict/warn agreement + strict mode never warns); the field-level anatomy for all states. NOT yet proved for Command / Response / stream roots (reserved command codes): oracle = implementation vs extracted spec_value_error at the pinned tables on every constrained leaf of generated messages." + PART % "C04",
-            "Coq proof (simulation + strict/warn agreement; structure types) + extracted specification as oracle + correspondence", "4 C04"),
+    "C04": ("proof", "PROVED for every root but the stream (structure types, commands, responses; all inputs; tables passing msg_tables_ok, which the regenerated ones do): a structurally consistent input is rejected by strict decoding if and only if some leaf of the field-by-field reading is out of range (valid <-> membership in the declared set, C16); the error names the FIRST such leaf in wire order (path, declared type, integer), exactly the events of all earlier fields and none for the offending one have been emitted, exactly the bytes after that field remain (Proofs/Sim6-10.v: warn-mode simulation + strict/warn agreement + strict mode never warns); the field-level anatomy for all states. NOT yet proved: the stream root, and reserved command codes (an unknown command code makes the input structurally inconsistent for the specification): oracle = implementation vs extracted spec_value_error at the pinned tables on every constrained leaf of generated messages." + PART % "C04",
+            "Coq proof (simulation + strict/warn agreement; types, commands, responses) + extracted specification as oracle + correspondence", "4 C04"),
     "C05": ("proof", "Proved for all inputs/roots/tables: Depleted <=> the decoder is suspended asking for a byte with the whole input handed over and nothing left; Superfluous carries exactly the non-empty unread rest (input = consumed ++ rest); a suspended decoder has used its input up (both modes). With C10_prefix_stable the events before a depleted error are a prefix of the full decode's events. That they are exactly the complete fields needs C01 (partial). Oracle: every/boundary cut points and suffixes of generated messages and streams, command code carried, clean stream ends only at message boundaries." + PART % "C05",
             "Coq proof (pump characterisation, accounting, incrementality) + cut/suffix enumeration oracle + correspondence", "4 C05"),
     "C06": ("proof", "Termination is by construction (total Gallina function, loop exhaustion is the distinguished OFuel outcome). Proved: never pulls more than the input holds; the pump adds no failure mode (an undocumented outcome can only come from an enumerated internal site of the processor). Not yet proved: unreachability of those sites in strict mode for coherent tables. Oracle: exception classes escaping the implementation on random, mutated and mistyped inputs over all roots; correspondence compares outcome classes incl. crashes." + PART % "C06",
             "Coq proof (partial) + crash oracle on arbitrary inputs + correspondence", "4 C06"),
     "C07": ("proof", "Proved for every decoder function, all tables, all states and inputs: a strict run that does not raise is reproduced exactly by warn mode; a strict run raising e after trace tr corresponds to a warn run that continues tr with (only for a value error) the offending event and then the warning wrapping the same e, or raises e itself after the same trace; through the pump: strict accepts => warn emits identical events and no warning; strict raises e => warn warns e after the same events; warn clean => strict accepts. Oracle: both modes on the same bytes (well-formed, fault-enumerated, cuts, random).",
             "Coq proof (relational structural induction strict vs warn, lifted through the pump) + correspondence + two-mode oracle", "4 C07"),
-    "C08": ("proof", "PROVED: for every structure-type root, all tables, all inputs: on a structurally consistent input warn mode emits exactly the lenient field-by-field events with one warning (the value error naming the leaf) directly after each offending event, and accepts (Sim4/5 in mode false); warn-mode decodes that complete with value warnings only are tiled by their events (C02 with abort=false); an overrun skips exactly the rest of the violated region before it is reported; first-problem agreement (C07). NOT proved: that warn mode never aborts and that after any recovered size problem every byte is shown, skipped or listed (false at the pinned commit, repaired by fix: commits); values-only for message roots. Oracle: no escaping exception except the two allowed value errors; tiling recomputed from events and warnings (resume at declared end, surplus exact); value-only inputs = lenient specification + one warning directly after each offending event." + PART % "C08",
-            "Coq proof (warn-mode simulation for structure types; partial otherwise) + tiling oracle + correspondence in warn mode on single/multiple faults", "4 C08"),
+    "C08": ("proof", "PROVED: for every root but the stream (structure types, commands, responses; all inputs; tables passing msg_tables_ok): on a structurally consistent input warn mode emits exactly the lenient field-by-field events with one warning (the value error naming the leaf) directly after each offending event, and accepts (the simulation in mode false); warn-mode decodes that complete with value warnings only are tiled by their events (C02 with abort=false); an overrun skips exactly the rest of the violated region before it is reported; first-problem agreement (C07). NOT proved: that warn mode never aborts and that after any recovered size problem every byte is shown, skipped or listed (false at the pinned commit, repaired by fix: commits); values-only for the stream root. Oracle: no escaping exception except the two allowed value errors; tiling recomputed from events and warnings (resume at declared end, surplus exact); value-only inputs = lenient specification + one warning directly after each offending event." + PART % "C08",
+            "Coq proof (warn-mode simulation for types, commands, responses; partial otherwise) + tiling oracle + correspondence in warn mode on single/multiple faults", "4 C08"),
     "C09": ("proof", "Proved: a decoded stream's events split at the message roots are exactly the per-message event lists, one object per message in order, command / response-built-with-that-command's-code pairing. Not yet proved: stream events = concatenation of the individual decodes (needs C01 for messages). Oracle: stream vs individual decodes on the implementation (Python == on events incl. type identity, and on objects) for generated sequences with failed responses, sessions and encryption mixed." + PART % "C09",
             "Coq proof (object side) + stream-vs-individual oracle + correspondence", "4 C09"),
     "C10": ("proof", "Proved for every decoder function, both modes, all tables, all states: appending input leaves every run that did not stop for lack of input unchanged and extends the others (the decoder learns about its input only by asking for the next byte); hence for ALL inputs the events of a prefix are a prefix of the events of the whole input; every event is reported with min(len, bytes received + 1) bytes pulled. Independence of the iterable kind is not a theorem: correspondence with seven source kinds. Oracle: look-ahead, prefix stability, complete fields at random and boundary cuts.",
